@@ -231,6 +231,108 @@ def run_view(inp):
   return rec
 
 
+def build_request(inp):
+  """a whole request for SPENextPoints / SPESearchNextPoints: `obs` observations (`fails` of them failed) of `metrics` metrics, `open` open suggestions, a budget"""
+  from libsigopt.aux.adapter_info_containers import DomainInfo, MetricsInfo, PointsContainer
+  comps, dim, nm, n = inp["comps"], len(inp["comps"]), inp.get("metrics", 1), inp["obs"]
+  rs = random.Random(inp["seed"])
+  pts = lambda m: numpy.array([g_point(rs, comps, True) for _ in range(m)], dtype=float).reshape(m, dim)
+  values = numpy.array([[rs.uniform(-1, 1) for _ in range(nm)] for _ in range(n)], dtype=float).reshape(n, nm)
+  failures = [i < inp["fails"] for i in range(n)]
+  rs.shuffle(failures)
+  search = inp["view"] == "spe_search"
+  return dict(
+    domain_info=DomainInfo(constraint_list=list(inp.get("constraints") or []), domain_components=lib_components(comps), priors=lib_priors(inp.get("priors")) or None),
+    max_simultaneous_af_points=1000, num_to_sample=inp["n"],
+    points_sampled=PointsContainer(points=pts(n), values=values, value_vars=numpy.full_like(values, 1e-10), failures=numpy.array(failures, dtype=bool)),
+    points_being_sampled=PointsContainer(points=pts(inp["open"])), tag=dict(experiment_id=-1),
+    metrics_info=MetricsInfo(requires_pareto_frontier_optimization=False, observation_budget=inp["budget"],
+                             user_specified_thresholds=[rs.uniform(-0.5, 0.5) for _ in range(nm)] if search else [None] * nm,
+                             objectives=[rs.choice(["maximize", "minimize"]) for _ in range(nm)],
+                             optimized_metrics_index=[] if search else [0], constraint_metrics_index=list(range(nm)) if search else []),
+    task_options=[])
+
+
+@contextlib.contextmanager
+def request_recorders(rec):
+  """Class-level recorders around the two samplers of CategoricalDomain (called through), the estimator sampling (cut short: uniform rows - what the
+  estimator suggests is not C10's business), the forming of the estimator (did it raise SPEInsufficientDataError; the counts it was handed) and the
+  two phase selectors.  Class level, because the search view builds a second view object for its exploitation phase."""
+  from libsigopt.compute.domain import CategoricalDomain
+  from libsigopt.compute.sigopt_parzen_estimator import SPEInsufficientDataError
+  from libsigopt.views.rest import spe_next_points as S, spe_search_next_points as SS
+  saved = (CategoricalDomain.generate_random_points_according_to_priors, CategoricalDomain.generate_quasi_random_points_in_domain,
+           S.SPENextPoints.__dict__["draw_samples"], S.SPENextPoints.form_sigopt_parzen_estimator, SS.SPESearchNextPoints.get_search_phase, S.get_experiment_phase)
+
+  def priors(self, m):
+    rec.append(("priors", int(m)))
+    return saved[0](self, m)
+
+  def quasi(self, m):
+    rec.append(("quasi", int(m)))
+    return saved[1](self, m)
+
+  def draw(spe, num_to_sample, domain, **kw):
+    rec.append(("estimator", int(num_to_sample)))
+    rows = saved[1](domain, num_to_sample)
+    return numpy.array([domain.map_categorical_point_to_one_hot(list(r)) for r in rows], dtype=float).reshape(num_to_sample, domain.one_hot_dim), 0, 1.0, 0
+
+  def form(self, pts, vals, gamma):
+    n_open = len(self.remove_task_info_as_needed(self.one_hot_points_being_sampled_points))
+    try:
+      out = saved[3](self, pts, vals, gamma)
+    except SPEInsufficientDataError:
+      rec.append(("form", len(pts), n_open, False))
+      raise
+    rec.append(("form", len(pts), n_open, True))
+    return out
+
+  def sphase(self):
+    ph = saved[4](self)
+    rec.append(("search_phase", [SS.SEARCH_INITIALIZATION_PHASE, SS.SEARCH_EXPLOITATION_PHASE, SS.SEARCH_EXPLORE_RESOLVE_PHASE].index(ph)))
+    return ph
+
+  def ephase(**kw):
+    out = saved[5](**kw)
+    rec.append(("phase", out[0] is S.INITIALIZATION_PHASE))
+    return out
+
+  CategoricalDomain.generate_random_points_according_to_priors, CategoricalDomain.generate_quasi_random_points_in_domain = priors, quasi
+  S.SPENextPoints.draw_samples, S.SPENextPoints.form_sigopt_parzen_estimator = staticmethod(draw), form
+  SS.SPESearchNextPoints.get_search_phase, S.get_experiment_phase = sphase, ephase
+  try:
+    yield
+  finally:
+    CategoricalDomain.generate_random_points_according_to_priors, CategoricalDomain.generate_quasi_random_points_in_domain = saved[:2]
+    S.SPENextPoints.draw_samples, S.SPENextPoints.form_sigopt_parzen_estimator = saved[2], saved[3]
+    SS.SPESearchNextPoints.get_search_phase, S.get_experiment_phase = saved[4], saved[5]
+
+
+def run_request(inp):
+  """Serve a whole request with the real view; returns what was recorded, or None when the library itself refuses the request (the search view's
+  explore / resolve phase has no random fallback: SPEInsufficientDataError with fewer than 10 observations)."""
+  from libsigopt.compute.sigopt_parzen_estimator import SPEInsufficientDataError
+  from libsigopt.views.rest.spe_next_points import SPENextPoints
+  from libsigopt.views.rest.spe_search_next_points import SPESearchNextPoints
+  rec = []
+  numpy.random.seed(int(inp["seed"]) % (2 ** 32))
+  with request_recorders(rec):
+    view = (SPESearchNextPoints if inp["view"] == "spe_search" else SPENextPoints)(build_request(inp))
+    try:
+      resp = view.view()
+    except SPEInsufficientDataError:
+      if any(e == ("search_phase", 2) for e in rec) and not any(e[0] == "form" for e in rec):
+        return None
+      raise
+  samplers = [e[0] for e in rec if e[0] in ("priors", "quasi", "estimator")]
+  form = next((e for e in rec if e[0] == "form"), None)
+  sph = next((e[1] for e in rec if e[0] == "search_phase"), None)
+  init = next((e[1] for e in rec if e[0] == "phase"), None)
+  return dict(samplers=samplers, search=0 if inp["view"] != "spe_search" else 1 + sph, init=bool(init) if init is not None else False,
+              obs=form[1] if form else 0, open=form[2] if form else 0, formed=form[3] if form else True, reached_form=form is not None,
+              points=len(resp["points_to_sample"]), max_ei="max_ei" in resp["tag"])
+
+
 def run_impl(kind, inp):
   """Run the implementation on one input.  Returns dict(out, raised, log, modified); everything is a function of `inp` alone
   (scripted draws come from random.Random(inp['seed']); script == 'real' seeds numpy's generator instead)."""
@@ -244,6 +346,9 @@ def run_impl(kind, inp):
     try:
       if kind == "view":
         res["out"] = run_view(inp)
+        return res
+      if kind == "viewreq":
+        res["out"] = run_request(inp)
         return res
       dom = make_domain(inp)
       if kind == "distinct":
@@ -641,8 +746,38 @@ def gen_view(rng, wide=False, constrained=None, view=None, pmode=None):
               script="random", seed=0)
 
 
-GENS = dict(distinct=gen_distinct, unique=gen_unique, replace=gen_replace, random=gen_random, prior=gen_prior, view=gen_view)
-KIND_WEIGHTS = [("distinct", 45), ("unique", 17), ("replace", 18), ("random", 6), ("prior", 8), ("view", 6)]
+def gen_viewreq(rng, wide=False, view=None, route=None, pmode=None, constrained=None):
+  """A whole request: priors x constraints (as gen_view) x the ROUTE the request takes through the view - the initialisation phase, too little data for the
+  estimator (a small budget, or many failures), many open suggestions, the estimator - for the plain and the search view."""
+  g = gen_view(rng, wide, constrained=constrained, view="spe", pmode=pmode)
+  view = view or rng.choice(["spe", "spe", "spe_search"])
+  route = route or rng.choice(["init", "few", "few", "open", "estimator", "any"])
+  if route == "init":          # successes below 15 % of the budget
+    budget = rng.choice([40, 100, 200, 1000])
+    obs = rng.randint(1, max(1, budget // 8))
+    fails, n_open = rng.randint(0, obs // 2), rng.choice([0, 0, 1, 4])
+  elif route == "few":         # past the initialisation phase with fewer than 10 observations: a small budget, or a budget eaten by failures
+    obs = rng.randint(2, 9)
+    fails = rng.choice([0, 0, rng.randint(0, obs - 1)])
+    budget = rng.randint(max(1, (obs - fails)), max(2, int((obs - fails) / 0.15))) if rng.random() < 0.8 else rng.choice([10, 20, 30])
+    n_open = rng.choice([0, 0, 0, 1, 2])
+  elif route == "open":        # observations <= 1.7 * open suggestions, incl. the exact boundary 17 / 10
+    n_open = rng.choice([6, 8, 10, 10, 12, 20])
+    obs = rng.choice([int(1.7 * n_open), int(1.7 * n_open), int(1.7 * n_open) + 1, rng.randint(10, int(1.7 * n_open))])
+    fails, budget = rng.randint(0, 2), rng.choice([20, 30, 60])
+  elif route == "estimator":
+    obs = rng.randint(10, 30)
+    fails, n_open, budget = rng.randint(0, 3), rng.choice([0, 0, 1, 3]), rng.choice([20, 30, 60, 100])
+  else:
+    budget = rng.choice([10, 20, 30, 60, 100])
+    obs = rng.randint(1, 30)
+    fails, n_open = rng.randint(0, obs // 2), rng.choice([0, 0, 1, 3, 8])
+  return dict(g, view=view, route=route, budget=budget, obs=obs, fails=fails, open=n_open, metrics=rng.randint(1, 3) if view == "spe_search" else 1,
+              n=rng.randint(1, 4), script="real", seed=rng.getrandbits(31))
+
+
+GENS = dict(distinct=gen_distinct, unique=gen_unique, replace=gen_replace, random=gen_random, prior=gen_prior, view=gen_view, viewreq=gen_viewreq)
+KIND_WEIGHTS = [("distinct", 43), ("unique", 16), ("replace", 17), ("random", 6), ("prior", 8), ("view", 4), ("viewreq", 6)]
 
 
 def fixed_cases(rng):
@@ -656,6 +791,10 @@ def fixed_cases(rng):
     for constrained in (False, True):
       for pmode in ("none", "blank", "real"):
         out.append(("view", gen_view(rng, False, constrained, view, pmode)))
+  for view in ("spe", "spe_search"):    # every route of a whole request x priors x constrained
+    for route in ("init", "few", "open", "estimator"):
+      for constrained in (False, True):
+        out.append(("viewreq", gen_viewreq(rng, False, view, route, "real", constrained)))
   return out
 
 
@@ -774,6 +913,11 @@ def coq_case(kind, inp, res):
   d = dom_lit(inp["comps"])
   if kind == "view":
     return f"CView {d} {C.listlit(inp['priors'], prior_lit)} {C.blit(bool(inp['constraints']))} {C.blit(res['out'] == ['priors'])}"
+  if kind == "viewreq":
+    o = res["out"]
+    used = dict(priors=0, quasi=1, estimator=2)[o["samplers"][0]]
+    return (f"CSpeView {C.listlit(inp['priors'], prior_lit)} {C.blit(bool(inp['constraints']))} {o['search']}%nat {C.blit(o['init'])} {zl(o['obs'])} {zl(o['open'])} "
+            f"{C.blit(o['formed'])} {used}%nat")
   calls, orc, cols = log_parts(res["log"])
   if kind == "distinct":
     dp = DEFAULT_DP if inp["dp"] is None else inp["dp"]
@@ -816,10 +960,12 @@ def nontrivial(kind, inp, res):
     return any(e for e in res["log"]) or (res["out"] is not None and len(res["out"]) < len(inp["batch"]))
   if kind == "view":
     return bool(inp["priors"])
+  if kind == "viewreq":
+    return bool(inp["priors"]) and res["out"]["samplers"] != ["estimator"]
   return True
 
 
-ALLOWED_RAISES = dict(distinct=(), unique=("KeyError",), replace=(), random=(), prior=(), view=())
+ALLOWED_RAISES = dict(distinct=(), unique=("KeyError",), replace=(), random=(), prior=(), view=(), viewreq=())
 
 
 def correspondence(ctx):
@@ -844,6 +990,13 @@ def correspondence(ctx):
       continue
     if res["raised"] and res["raised"] not in ALLOWED_RAISES[kind]:
       dis.append(dict(what=f"C10 {kind}: implementation raised {res.get('raised_text')} on an input inside the reading", kind=kind, input=inp, observed=obs))
+      continue
+    if kind == "viewreq" and res["out"] is None and not res["raised"]:
+      discarded_req = dist.get("viewreq/refused-by-the-library", 0)
+      dist["viewreq/refused-by-the-library"] = discarded_req + 1
+      continue
+    if kind == "viewreq" and not res["raised"] and len(res["out"]["samplers"]) != 1:
+      dis.append(dict(what=f"C10 request {inp['view']}: expected exactly one sampler to produce the suggestions, saw {res['out']['samplers']}", kind=kind, input=inp, observed=obs))
       continue
     if kind == "view" and len(res["out"]) != 1:
       dis.append(dict(what=f"C10 view {inp['view']}: expected exactly one sampler call, saw {res['out']}", kind=kind, input=inp, observed=obs))
@@ -872,6 +1025,11 @@ def correspondence(ctx):
       bump("unique/" + ("raised" if res["raised"] else "self" if inp["cmp"] is None else "vs-history"))
     if kind == "view":
       bump(f"view/{inp['view']}/{'constrained' if inp['constraints'] else 'free'}/{'priors' if inp['priors'] else 'nopriors'}")
+    if kind == "viewreq":
+      o = res["out"]
+      via = ("search-init" if o["search"] == 1 else "search-resolve" if o["search"] == 3 else "init-phase" if o["init"] else "estimator" if o["samplers"] == ["estimator"]
+             else "too-little-data" if not o["formed"] else "many-open")
+      bump(f"viewreq/{inp['view']}/{via}/{'constrained' if inp['constraints'] else 'free'}/{'priors' if inp['priors'] else 'nopriors'}")
     h = C.canon_hash([kind, {k: v for k, v in inp.items() if k != "seed"}])
     if h not in seen and nontrivial(kind, inp, res):
       nontriv += 1
@@ -953,6 +1111,22 @@ def oracle(kind, inp):
     exp = ["priors"] if (inp["priors"] and not inp["constraints"]) else ["quasi"]
     if res["raised"] or res["out"] != exp:
       return fail(f"dispatch:{inp['view']}", exp, why="priors are used iff priors are given and the domain is unconstrained")
+    return None
+  if kind == "viewreq":
+    # a whole request served by the real view: whenever the suggestions are NOT produced by the Parzen estimator the request took a random-suggestion
+    # path (initialisation phase, too little data for the estimator, many open suggestions, the search view's initialisation sequence), and that path
+    # draws from the priors iff priors are supplied and the domain is unconstrained
+    if res["raised"]:
+      return fail(f"raises:{res['raised']}", "a response")
+    o = res["out"]
+    if o is None or o["samplers"] == ["estimator"]:
+      return None   # refused by the library itself (search view, explore / resolve phase, fewer than 10 observations) / the estimator was sampled
+    via = ("search-initialisation" if o["search"] == 1 else "initialisation-phase" if o["init"] else "too-little-data-for-the-estimator" if not o["formed"]
+           else "many-open-suggestions")
+    exp = ["priors"] if (inp["priors"] and not inp["constraints"]) else ["quasi"]
+    if o["samplers"] != exp or o["points"] != inp["n"]:
+      return fail(f"random-path-dispatch:{inp['view']}:{via}", dict(samplers=exp, points=inp["n"]),
+                  why="every random-suggestion path of the view uses the prior sampler iff priors are given and the domain is unconstrained")
     return None
   if kind in ("unique", "replace"):
     pts = list(inp["batch"]) + list((inp["cmp"] if kind == "unique" else inp["hist"]) or [])
@@ -1073,7 +1247,7 @@ def search(ctx, hints, broken):
   return dict(evaluations=n, failures=known + fails,
               oracle="enumeration of the configuration space (itertools.product) for count / membership / distinctness / unobservedness; "
                      "exact rational standardised distances for the kept set; value coverage in 60*card real draws; closed-form "
-                     "truncated-normal / beta means (7 s.e.); dispatch rule of the three views")
+                     "truncated-normal / beta means (7 s.e.); dispatch rule of the three views, and of every random-suggestion route of whole SPE / SPE-search requests")
 
 
 def replay(ctx, payload):
@@ -1093,3 +1267,16 @@ LEVEL_NOTE = ("Exact arithmetic over Q (threshold cases within 1e-9 discarded fo
               "registered known finding; harness and case printer trusted; no axioms")
 TECHNIQUE = "Coq proof (bijection, counting, induction) on executable model + in-Coq differential correspondence with scripted randomness"
 DESIGN_REF = "DESIGN.md section 7, C10"
+
+# --- gap round (seeded C10_m12): additions to the claimed level
+LEVEL_TEXT += ("; the view dispatch is owned for WHOLE requests: Model.Distinct.spe_view_sampler / spe_search_view_sampler say which sampler produces the suggestions of an SPE / SPE-search "
+               "request (initialisation phase, many open suggestions - observations <= 1.7 x open -, too little data for the estimator, the estimator; the search view's three phases), proved: "
+               "the estimator is sampled iff past initialisation, not swamped by open suggestions and formed, and EVERY other route draws from the priors iff priors are supplied and the "
+               "domain is unconstrained (C10_spe_view_estimator_iff, C10_spe_view_random_routes, C10_spe_search_view_random_routes); tied by an exact correspondence on real "
+               "SPENextPoints / SPESearchNextPoints requests (priors x constraints x route, recorders around the two samplers, the estimator sampling cut short); the searcher states the "
+               "same on real requests without the model")
+ASSUMPTIONS = ASSUMPTIONS + [
+  "whole-request dispatch: the experiment phase (C14's selector) and whether the Parzen estimator could be formed (C16's split condition) are observed on the running view and handed to the "
+  "model as inputs; the estimator's own sampling is cut short by the harness (uniform rows) - what it suggests is not C10's business; a search-view request refused by the library itself "
+  "(explore / resolve phase with fewer than 10 observations: SPEInsufficientDataError without fallback) is outside the clause and skipped",
+]
